@@ -87,7 +87,7 @@ Vals(t, depth) ==
     [] t.k \in UintKinds -> {Num(t.k, c) : c \in {"z", "p7", "p200"} \cup (IF Bits(t.k) >= 16 THEN {"p40000"} ELSE {}) \cup (IF Bits(t.k) >= 32 /\ depth = 0 THEN {"p3e9"} ELSE {})
                                              \cup (IF Bits(t.k) = 64 /\ depth = 0 THEN {"p2_63"} ELSE {})}
     [] t.k \in FloatKinds -> {Num(t.k, c) : c \in {"z", "nz", "f1_5"} \cup (IF depth = 0 THEN {"p7", "f1e21", "f1e20", "f1em6", "f1em7", "nan", "inf", "ninf"} ELSE {"nan"})}
-    [] t.k = "str" -> {Str(c) : c \in {"se", "sx"} \cup (IF depth = 0 THEN {"sesc", "shtml", "sls", "sbad", "s12"} ELSE {"shtml"})}
+    [] t.k = "str" -> {Str(c) : c \in {"se", "sx"} \cup (IF depth = 0 THEN {"sesc", "shtml", "sls", "sbad", "s12", "slong"} ELSE {"shtml"})}
     [] t.k = "num" -> {Num("num", c) : c \in {"se", "p7", "f1_5", "sx"} \cup (IF depth = 0 THEN {"big", "nz", "s12"} ELSE {})}
     [] t.k = "raw" -> {Nil, [g |-> "raw", d |-> [j |-> "a", e |-> <<[j |-> "n", c |-> "p7"]>>]], [g |-> "raw", d |-> [j |-> "x", c |-> "xtru"]]}
                       \cup (IF depth = 0 THEN {[g |-> "raw", d |-> [j |-> "none"]], [g |-> "raw", d |-> [j |-> "s", c |-> "shtml"]]} ELSE {})
